@@ -573,7 +573,18 @@ class GroupFamily final : public vf::Family {
   }
 
   void RunGroup(const Case& c, Explorer& ex, Verdict& v) {
-    const int workers = c.H(1) % 4, nfut = c.H(2) % 4, consume_mask = c.H(3), form = c.H(4) % 6;
+    int workers = c.H(1) % 4, nfut = c.H(2) % 4;
+    const int consume_mask = c.H(3), form = c.H(4) % 6;
+    // zero-start batch: the group starts at 0 with no guard unit, a batch of >= 2 futures is attached in one call and
+    // the waiters come afterwards (Add at zero is legal while nobody waits concurrently)
+    const bool zero_start = c.H(0) % 4 == 2 && form <= 1;
+    if (zero_start) {
+      workers = 0;
+      // exactly one batch call: once the count of a one-shot group has returned to zero, a further Attach without
+      // Reset is outside the documented use (a first version attached a third future afterwards and crashed the
+      // unchanged library in OneShotEvent::Set - generator error, not a defect)
+      nfut = form == 0 ? 2 : 2 + nfut % 2;
+    }
     yaclib::fiber::SetFaultTickLength(static_cast<std::uint32_t>(1 + c.H(5) % 30));
     yaclib::SetFaultSleepTime(static_cast<std::uint32_t>(1 + c.H(6) % 40));
     GCtx cx;
@@ -582,8 +593,8 @@ class GroupFamily final : public vf::Family {
       vf::QueueExec que{2};
       yaclib_std::thread server([&] { que.Serve(); });
       {
-        yaclib::WaitGroup<> wg{1};
-        cx.outstanding = 1;
+        yaclib::WaitGroup<> wg{zero_start ? std::size_t{0} : std::size_t{1}};
+        cx.outstanding = zero_start ? 0 : 1;
         const auto nf = static_cast<std::size_t>(nfut);
         std::vector<yaclib::Future<Pay>> fs(nf);
         std::vector<yaclib::Promise<Pay>> ps(nf);
@@ -630,6 +641,7 @@ class GroupFamily final : public vf::Family {
           });
         }
         // waiters
+        auto start_waiters = [&] {
         for (std::size_t k = 0; k < c.Records(); ++k) {
           const int kind = c.Rec(k)[0] % 6, par = c.Rec(k)[1] % 6;
           ++cx.expected_release;
@@ -643,6 +655,10 @@ class GroupFamily final : public vf::Family {
             ts.emplace_back([&, kind, par] { WaiterBody(wg, cx, kind, par); });
           }
           vf::Point();
+        }
+        };
+        if (!zero_start) {
+          start_waiters();
         }
         // attach / consume the futures (main holds a token, so the implicit Add is legal)
         auto attach_one = [&](std::size_t i) {
@@ -691,11 +707,15 @@ class GroupFamily final : public vf::Family {
             vf::Point();
           }
         }
-        --cx.outstanding;
-        if (cx.outstanding == 0) {
-          cx.zero_reached = true;
+        if (zero_start) {
+          start_waiters();
+        } else {
+          --cx.outstanding;
+          if (cx.outstanding == 0) {
+            cx.zero_reached = true;
+          }
+          wg.Done();
         }
-        wg.Done();
         wg.Wait();
         if (cx.outstanding != 0) {
           cx.Err("main Wait returned while operations were outstanding");
